@@ -309,7 +309,11 @@ class ElectronicControlUnit:
             next_wakeup = self.j1939_dll.async_job_thread(now)
 
             # check timer events
-            for event in self._timer_events:
+            # iterate over a copy: callbacks (and other threads) add and remove entries while we walk the list
+            for event in list(self._timer_events):
+                if not any(e is event for e in self._timer_events):
+                    # removed in the meantime
+                    continue
                 if event['deadline'] > now:
                     if next_wakeup > event['deadline']:
                         next_wakeup = event['deadline']
@@ -325,8 +329,11 @@ class ElectronicControlUnit:
                         if next_wakeup > event['deadline']:
                             next_wakeup = event['deadline']
                     else:
-                        # remove from list
-                        self._timer_events.remove( event )
+                        # remove from list (unless the callback has removed it already)
+                        for idx, e in enumerate(self._timer_events):
+                            if e is event:
+                                del self._timer_events[idx]
+                                break
 
             time_to_sleep = next_wakeup - time.time()
             if time_to_sleep > 0:
